@@ -41,28 +41,30 @@ Inductive eff := EAlias (i : nat) | EMutate (i : nat).
 
 Inductive op :=
   | Clean (code : nat)
-      (* transformations all of whose output variables go through copyVariable / createVariable(...)[...] = values:
+      (* transformations: every variable of the returned file is backed by a buffer allocated by the call
+         (copyVariable / createVariable(...)[...] = values, or an explicit .copy()):
          copy, subsetVariables, sliceDimensions, applyAlongDimensions, renameVariable, renameDimension, insertDimension,
-         reorderDimensions, removeSingleton, stack, mask, f + g (pncbo), eval of a computed expression *)
-  | Query (code : nat)
+         reorderDimensions, removeSingleton, stack, mask (every keyword), f + g (pncbo), eval (computed expression, bare
+         name, view), getvarpnc, slice_dim.
+         Three of them handed out input buffers before their repairs and are watched by the correspondence on exactly
+         those inputs (corpus/C05): eval('B = A') / eval('B = A[...]') stored the evaluated object itself
+         (fix C05-eval-result-copy: a value that may share memory with a variable of the file is copied first);
+         getvarpnc created coordinate variables with values=coordvar[...] even with copy=True
+         (fix C05-getvarpnc-coord-copy); slice_dim stored the swapaxes / slice view (fix C05-slice_dim-copy). *)
+  | Query (code : nat).
       (* queries: getTimes (time variable, TFLAG, bounds), date2num, time2idx, val2idx (nearest, bounds), repr, dump, save.
          They return no file and write nothing in place.  Two of them did before their repairs and are watched by the
          correspondence on exactly those inputs: getTimes on a TFLAG holding -635 wrote 1970001 through a view
          (fix C05-getTimes-copy: `.copy()`), val2idx / time2idx(method='bounds') on a uniform float coordinate without
          bounds variable did `start -= dval[0]; end += dval[-1]` on views of the coordinate (fix: `.astype('d')` copies). *)
-  | EvalName (src : nat)          (* eval('B = A')      : outf.variables['B'] = vardict['A'], the input's own array *)
-  | EvalView (src : nat)          (* eval('B = A[...]') : a view carrying dimensions is stored as is *)
-  | Getvarpnc (coords : list nat) (* getvarpnc(f, keys): coordinate variables are created with values=coordvar[...] *)
-  | SliceDim (sliced : list nat). (* slice_dim(f, 'd,a,b'): outf.variables[k] = var[...].swapaxes(..)[a:b].swapaxes(..) *)
 
+(* the catalogue of effects on the inputs: empty for every call since the repairs; the type `eff`, `actions_of` and the
+   Alias / Mutate actions stay so that a call that shares or writes a buffer again can be described (and so that the
+   isolation theorems keep a hypothesis that can fail: see C05_fresh_hypothesis_needed) *)
 Definition impl_effs (o : op) : list eff :=
   match o with
   | Clean _ => []
   | Query _ => []
-  | EvalName s => [EAlias s]
-  | EvalView s => [EAlias s]
-  | Getvarpnc cs => map EAlias cs
-  | SliceDim vs => map EAlias vs
   end.
 
 Definition spec_effs (o : op) : list eff := [].
